@@ -278,3 +278,35 @@ def apply_optic(kind):
         get_ = lambda a, b: elem(J, i, j, a, b)
     check('shape', shape_is(out, h, w, 2, 2))
     check('value', And(*[approx(elem(out, i, j, a, b), elem(f, i, j) * get_(a, b)) for a in range(2) for b in range(2)]))
+
+
+@harness('C20', 'bounded/jones-adapter-structured-fields', kind='bounded', fuc=['prysm.x.polarization.jones_adapter', 'prysm.x.polarization.add_jones_propagation'])
+def bounded_adapter_sparse():
+    """BOUNDED (data-dependent shortcuts such as `np.any(component)` are outside the symbolic subset): Jones fields of shape
+    (h, w, 2, 2), h, w in 1..9, in which each of the four components is independently identically zero, constant or random,
+    pushed through the adapter around an affine test routine and around the real prysm.propagation.focus: every component of the
+    result is the routine applied to that component alone."""
+    import numpy as np
+    rng = np.random.default_rng(Int('seed', 0, 10 ** 6))
+    pol = get('prysm.x.polarization')
+    pr = get('prysm.propagation')
+    h, w = int(rng.integers(1, 10)), int(rng.integers(1, 10))
+    E = np.zeros((h, w, 2, 2), dtype=complex)
+    kinds = []
+    for a in range(2):
+        for b in range(2):
+            k = int(rng.integers(0, 3))
+            kinds.append(k)
+            if k == 1:
+                E[..., a, b] = complex(rng.standard_normal(), rng.standard_normal())
+            elif k == 2:
+                E[..., a, b] = rng.standard_normal((h, w)) + 1j * rng.standard_normal((h, w))
+    gain, off = complex(rng.standard_normal(), rng.standard_normal()), complex(rng.standard_normal(), rng.standard_normal())
+    affine = pol.jones_adapter(lambda F, g, offset=0: F * g + offset)
+    out = affine(E, gain, offset=off)
+    ok = all(np.allclose(out[..., a, b], E[..., a, b] * gain + off) for a in range(2) for b in range(2))
+    check('affine-routine-componentwise', bool(out.shape == E.shape and ok))
+    foc = pol.jones_adapter(pr.focus)
+    outf = foc(E, 1)
+    ok = all(np.allclose(outf[..., a, b], pr.focus(E[..., a, b], 1)) for a in range(2) for b in range(2))
+    check('focus-componentwise', bool(ok))
